@@ -66,6 +66,14 @@ def oracle_c17(ctx: Ctx, n):
     rng = random.Random(ctx.seed + 61)
     texts = [spec_text(rng) for _ in range(n)] + NEAR_MISS + ["", "<empty>", "===abc", "===1.0", ">=1.0||<0.5", "<empty>||>=1", "==1!2.*", "~=1!2.3", "~=v1.2", "~=1.2.c1",
                                                              "~=1.2.pre1", "~=1.2.rev1", ">=1.0||", "||", "||<2", " >=1.0 ", ">=1.0 || <0.5"]
+    # arbitrary-equality clauses (free-text operands, incl. ones that look like wildcards / local versions), alone and inside comma sets;
+    # `||` alternatives with a === member may raise ValueError (C04 says so) and stay outside the claim
+    ARB = ["abc", "foo.*", "1.0", "1.0.*", "release-candidate.*", ".*", "2024.build.*", "1.0+local", "v1", "1!2.*", "*", "1.0a1.*", "x.y.z", "1.0.post1.*", "0"]
+    for _ in range(max(20, n // 15)):
+        a = "===" + rng.choice(["", " "]) + rng.choice(ARB)
+        k = rng.random()
+        texts.append(a if k < 0.4 else (f"{a},{clause(rng)}" if k < 0.6 else (f"{clause(rng)}, {a}" if k < 0.8 else f"{a},==={rng.choice(ARB)}")))
+    texts += ["==1.0+local", "!=1.0+local.1", "==1.0+local,>=1", ">=1.0+local", "~=1.0+l", "==1.*+l"]
     # mutate some valid ones into near misses
     for t in list(texts[: n // 4]):
         if t:
@@ -83,8 +91,8 @@ def oracle_c17(ctx: Ctx, n):
                 SpecifierSet(p)
             except PkgInvalid:
                 accepts = False
-        if "+" in t or "===" in t:
-            continue   # local versions / arbitrary equality are outside the claim
+        if "===" in t and "||" in t:
+            continue   # an alternative with an arbitrary-equality member may raise ValueError (C04): outside the claim
         ctx.count("oracle-C17", 1, nontrivial_key=(accepts, t.count(","), "||" in t, "!" in t, "*" in t, "~=" in t, any(c.isalpha() for c in t)))
         try:
             r = parse_version_specifier(t)
